@@ -87,11 +87,12 @@ def run_menu_scenario(p, wd):
             break
     # --- menu: min/max tables
     info = oracle.read(path)
-    for finest in (False, True):
+    for finest, both in ((False, False), (True, False), (True, True)):      # -m ; -f ; -m -f (= the finest level)
         checks += 1
-        call = f"Menu(plt, min_max={not finest}, finest_lv={finest})"
+        mm = (not finest) or both
+        call = f"Menu(plt, min_max={mm}, finest_lv={finest})"
         try:
-            out = capture(Menu, path, min_max=not finest, finest_lv=finest)
+            out = capture(Menu, path, min_max=mm, finest_lv=finest)
         except Exception as e:      # noqa
             fails.append({"what": "menu min/max raised", "call": call, "detail": f"{type(e).__name__}: {str(e)[:100]}"})
             continue
